@@ -13,6 +13,7 @@
  *                                  first one WITHOUT setting the text/grammar again; alignment requested (tag u<k>final)
  *   partial <k> ...                request an alignment after chunk k (0-based) of the streaming modes
  *   early 1                        also request an alignment right after decoder_start_utt
+ *   preend 1                       also request an alignment after the last audio and before decoder_end_utt
  *   run
  *
  * At start the harness prints the acoustic-model tables the Lean model needs (MODEL .. ENDMODEL).
@@ -60,7 +61,7 @@ static long chunkseq[64][2]; /* (size, count) runs; after the last run `chunk` i
 static int nchunkseq;
 static struct { char path[512]; long skip, start, n; } utts[8];
 static int nutts;
-static int partials[256], npartial, early, dumpsen, tmatskip;
+static int partials[256], npartial, early, dumpsen, tmatskip, preend;
 static char addw[16][2][256];
 static int naddw;
 static uint8 *tp_saved;
@@ -560,6 +561,7 @@ static void run_case(void)
                     uk++;
                 }
             }
+            if (preend && u == 0) request("preend"); /* all audio processed, utterance not yet ended */
             decoder_end_utt(d);
             if (u == 0) snprintf(tag, sizeof(tag), "final");
             else snprintf(tag, sizeof(tag), "u%dfinal", u);
@@ -586,7 +588,7 @@ int main(int argc, char **argv)
         if (n == 0) continue;
         if (!strcmp(w[0], "case") && n >= 2) {
             snprintf(caseid, sizeof(caseid), "%s", w[1]);
-            ncfg = 0; npartial = 0; early = 0; dumpsen = 0; gkind = 0; tmatskip = 0; naddw = 0;
+            ncfg = 0; npartial = 0; early = 0; dumpsen = 0; gkind = 0; tmatskip = 0; naddw = 0; preend = 0;
             strcpy(mode, "stream"); chunk = 4096; nchunkseq = 0; nutts = 0;
         } else if (!strcmp(w[0], "cfg") && n == 3 && ncfg < MAXCFG) {
             snprintf(cfgk[ncfg], 64, "%s", w[1]);
@@ -630,6 +632,8 @@ int main(int argc, char **argv)
             for (i = 1; i < n && npartial < 256; i++) partials[npartial++] = atoi(w[i]);
         } else if (!strcmp(w[0], "early") && n == 2) {
             early = atoi(w[1]);
+        } else if (!strcmp(w[0], "preend") && n == 2) {
+            preend = atoi(w[1]);
         } else if (!strcmp(w[0], "dumpsen") && n == 2) {
             dumpsen = atoi(w[1]);
         } else if (!strcmp(w[0], "synth") && n >= 6) {
